@@ -314,6 +314,51 @@ func c16(r *ev.Run) {
 			}
 		}
 	}
+	// single-character sweep: every 7-bit byte (controls included) and a few Unicode blanks / marks, placed in front of,
+	// inside and behind a plain issuer, account and secret (a secret read from a file ends in "\n"; a pasted one starts
+	// with a no-break space)
+	{
+		var sn int64
+		var chars []string
+		for b := 0; b < 128; b++ {
+			chars = append(chars, string(rune(b)))
+		}
+		chars = append(chars, "\u0085", "\u00a0", "\u2028", "\u2029", "\u3000", "\ufeff", "\u200b", "\u00e9", "\r\n", "\xff", "\xc3")
+		for ci, ch := range chars {
+			for pos := 0; pos < 3; pos++ {
+				put := func(base string) string {
+					switch pos {
+					case 0:
+						return ch + base
+					case 1:
+						return base[:len(base)/2] + ch + base[len(base)/2:]
+					}
+					return base + ch
+				}
+				for field := 0; field < 3; field++ {
+					c := c16Case{Kind: []string{"totp", "hotp"}[(ci+pos+field)%2], Issuer: "Example", Account: "alice", Secret: []string{"JBSWY3DPEHPK3PXP", "MZXW6YQ=", "mzxw6ytboi"}[(ci+pos)%3], Digits: 6, Algo: ci % 3, Period: 30}
+					switch field {
+					case 0:
+						if ch == ":" {
+							continue
+						}
+						c.Issuer = put(c.Issuer)
+					case 1:
+						c.Account = put(c.Account)
+					case 2:
+						c.Secret = put(c.Secret)
+					}
+					obs, bad := urlRoundTrip(c)
+					sn++
+					if bad != "" {
+						r.Fail("round-trip", fmt.Sprintf("character %q at position %d of field %d (0 issuer, 1 account, 2 secret): %s", ch, pos, field, bad), c, bad, obs)
+					}
+				}
+			}
+		}
+		n2 += sn
+		r.Set("single_character_sweep", map[string]any{"cases": sn, "characters": len(chars), "positions": "front, middle, end", "fields": "issuer (no colon), account, secret"})
+	}
 	// label length sweep: every total length len(issuer)+len(account) = 2..300 in three splits and three kinds of
 	// characters (1-, 2- and 3-byte), and secrets of every length 1..130 (fixed-size buffers, length prefixes)
 	{
